@@ -908,6 +908,9 @@ static void do_scan(char** tk, int ntk)
         API(rc = yr_scanner_scan_fd(sc, fd));
       else
         API(rc = yr_rules_scan_fd(ru, fd, flags, scan_cb, &c, timeout));
+      // the descriptor belongs to the caller: the library may map it, it must not close it
+      if (fcntl(fd, F_GETFD) == -1)
+        fprintf(out, "{\"op\":\"apicheck\",\"what\":\"descriptor passed to scan_fd was closed by the library\"}\n");
       close(fd);
     }
     unlink(path);
@@ -1299,6 +1302,8 @@ static int exec_line(char* line)
       {
         int fd = open(path, O_RDONLY);
         API(errors = yr_compiler_add_fd(comps[c], fd, nsp, path));
+        if (fcntl(fd, F_GETFD) == -1)
+          fprintf(out, "{\"op\":\"apicheck\",\"what\":\"descriptor passed to add_fd was closed by the library\"}\n");
         close(fd);
       }
       unlink(path);
